@@ -298,7 +298,15 @@ func TestWorker(t *testing.T) {
 			res.FirstSeed = seed
 		}
 		plan := &Plan{Prop: job.Prop, Profile: job.Prop, Seed: seed, Index: idx + 1}
+		t0 := time.Now()
 		r := runOne(t, plan)
+		if d := time.Since(t0).Seconds(); d > 3 {
+			res.Counters["runs_slower_than_3s"]++
+			if int(d*1000) > res.Counters["slowest_run_ms"] {
+				res.Counters["slowest_run_ms"] = int(d * 1000)
+				res.Counters["slowest_run_index"] = idx
+			}
+		}
 		res.Runs++
 		res.Steps += r.Stats.Steps
 		addMap(res.Ops, r.Stats.Ops)
